@@ -411,7 +411,7 @@ func (db *SpecDB) LoadSpecFile(path, pkg string, assumed bool) error {
 				return fail(err)
 			}
 			cur.Ghosts = append(cur.Ghosts, &GhostDecl{Name: m[1], Type: m[2], Init: e})
-		case "loop":
+		case "loop", "each":
 			if cur == nil {
 				return fail(fmt.Errorf("loop outside func"))
 			}
@@ -420,6 +420,9 @@ func (db *SpecDB) LoadSpecFile(path, pkg string, assumed bool) error {
 			n, err := strconv.Atoi(ns)
 			if err != nil {
 				return fail(fmt.Errorf("bad loop ordinal"))
+			}
+			if kw == "each" {
+				n = -1 - n // iterations through Set.Each(closure): the N-th Each call of the function (source order)
 			}
 			ls := cur.Loops[n]
 			if ls == nil {
